@@ -12,7 +12,7 @@ COQ_OK = "(ok_spec run_c20)"
 COQ_INPUT_TYPE = "vclass * payload * option payload * Z"
 RULE = ("each of the five classes x values {0,-1,2^70,NaN,+-inf,-0.0,'','é',b'',b'\\x00',...} x raw in {absent, falsy, other}; "
         "observations: isinstance/==/hash/ordering/str/repr/format/arithmetic against the plain built-in, copy, deepcopy, "
-        "pickle protocols 2-5, whole packets; distinct = distinct (class, value, raw)")
+        "pickle protocols 0-5, whole packets (default protocol, 0 and 1); distinct = distinct (class, value, raw)")
 ASSUMPTIONS = ["semantics of the built-ins and of pickle are CPython's; the model covers construction/reduction and the method-resolution table"]
 
 CLS = ["CBinary", "CBool", "CFloat", "CInt", "CStr"]
@@ -126,7 +126,7 @@ def impl(case):
         okc = all(type(c) is cls and (same(base(c), plain)) and same_raw(c.raw_value, x.raw_value) for c in (c1, c2))
         obs.append(okc)
         okp = True
-        for proto in (2, 3, 4, 5):
+        for proto in range(0, pickle.HIGHEST_PROTOCOL + 1):
             y = pickle.loads(pickle.dumps(x, protocol=proto))
             okp = okp and type(y) is cls and same(base(y), plain) and same_raw(y.raw_value, x.raw_value)
         obs.append(okp)
@@ -136,7 +136,7 @@ def impl(case):
         pk["A"] = common.IntParameter(0)
         pk["B"] = x
         okk = True
-        for q in (copy.copy(pk), copy.deepcopy(pk), pickle.loads(pickle.dumps(pk))):
+        for q in (copy.copy(pk), copy.deepcopy(pk), pickle.loads(pickle.dumps(pk)), pickle.loads(pickle.dumps(pk, protocol=0)), pickle.loads(pickle.dumps(pk, protocol=1))):
             okk = okk and type(q) is packets.CCSDSPacket and list(q.keys()) == ["A", "B"] and bytes(q.raw_data) == bytes(pk.raw_data)
             okk = okk and q.raw_data.pos == 13 and type(q["B"]) is cls and same_raw(q["B"].raw_value, x.raw_value)
             okk = okk and q["A"].raw_value == 0
